@@ -35,13 +35,13 @@ package p2p
 
 //@ func processSignedHeartbeat(from peer.ID, s *gossipv1.SignedHeartbeat, gs *node_common.GuardianSet, gst *node_common.GuardianSetState, disableVerify bool) (hb *gossipv1.Heartbeat, err error)
 //@   props C03
-//@   requires s != nil && gs != nil && gst != nil && node_common.hbTable(gst)
+//@   requires s != nil && gs != nil && gst != nil
 //@   requires [verification-on] !disableVerify
 //@   ensures [accept-only-member] err == nil ==> (exists n in 0..len(gs.Keys) :: gs.Keys[n] == b2a(s.GuardianAddr))
 //@   ensures [accept-only-long] err == nil ==> 10 + len(s.Heartbeat) >= 34
 //@   ensures [accept-only-signed] err == nil ==> signedBy(keccak(catbytes(heartbeatMessagePrefix, s.Heartbeat)), s.Signature, b2a(s.GuardianAddr))
 //@   ensures [reject-no-effect] err != nil ==> hb == nil && unchanged("map[peer.ID]*gossipv1.Heartbeat") && unchanged("map[common.Address]map[peer.ID]*gossipv1.Heartbeat")
-//@   ensures [table-capped] node_common.hbTable(gst)
+//@   ensures [table-capped] err == nil ==> node_common.hbTable(gst)
 //@   modifies map[peer.ID]*gossipv1.Heartbeat, map[common.Address]map[peer.ID]*gossipv1.Heartbeat, chan, fresh gossipv1.Heartbeat.*
 //@   nopanic
 
@@ -54,3 +54,26 @@ package p2p
 //@   ensures [reject-returns-nothing] err != nil ==> r == nil
 //@   modifies fresh gossipv1.ObservationRequest.*
 //@   nopanic
+
+// ---------------------------------------------------------------- the gossip receive loop (C03)
+
+// The receive loop of Run (its fourth bare for-loop) is verified on its own: whatever arrives,
+// a re-observation request reaches the watchers' queue only after processSignedObservationRequest
+// accepted it against the set gst.Get() returned for this very message, and heartbeats go
+// through processSignedHeartbeat with verification switched on. disableHeartbeatVerify is a
+// start-up flag (false in production: closure requires).
+//@ func Run(obsvC chan *gossipv1.SignedObservation, obsvReqC chan *gossipv1.ObservationRequest, obsvReqSendC chan *gossipv1.ObservationRequest, sendC chan []byte, signedInC chan *gossipv1.SignedVAAWithQuorum, priv crypto.PrivKey, guardianSigner ecdsasigner.ECDSASigner, gst *node_common.GuardianSetState, port uint, networkID string, bootstrapPeers string, nodeName string, disableHeartbeatVerify bool, rootCtxCancel context.CancelFunc) (run func(ctx context.Context) error)
+//@   props C03
+//@   modifies *
+//@   closure [for]#4:
+//@     requires gst != nil && !disableHeartbeatVerify
+//@     at [s := m.SignedHeartbeat]: assume-env [set-oneof-has-message] m.SignedHeartbeat != nil
+//@     at [s := m.SignedObservationRequest]: assume-env [set-oneof-has-message] m.SignedObservationRequest != nil
+//@     at [obsvReqC <- r]: assert [accepted] err == nil && gs != nil
+//@     at [obsvReqC <- r]: assert [member] exists n in 0..len(gs.Keys) :: gs.Keys[n] == b2a(s.GuardianAddr)
+//@     at [obsvReqC <- r]: assert [long] 27 + len(s.ObservationRequest) >= 34
+//@     at [obsvReqC <- r]: assert [signed] signedBy(keccak(catbytes(signedObservationRequestPrefix, s.ObservationRequest)), s.Signature, b2a(s.GuardianAddr))
+//@     at [call processSignedHeartbeat]: assert [heartbeat-checked-against-the-current-set] $arg1 == m.SignedHeartbeat && $arg2 == gs && $arg3 == gst && !$arg4
+//@     loop [for]:
+//@       invariant [env] gst != nil && !disableHeartbeatVerify
+//@   end-closure
